@@ -75,3 +75,102 @@ pub fn typegate(a: &Args) {
     println!("word_changed={}", (h.admission_word() != word0) as u8);
     println!("status={}", h.status());
 }
+
+/// C02 dequeue side: `threads` OS threads each send `msgs` distinct ids to a real actor (standard or thread-local runtime) whose handler yields `yields`
+/// times; the actor is then drained (end=drain), stopped (end=stop) or killed (end=kill). Reports every send result and the handler log.
+mod dq {
+    use ractor::{Actor, ActorProcessingErr, ActorRef};
+    use std::sync::{Arc, Mutex};
+    pub type Log = Arc<Mutex<Vec<u64>>>;
+    pub struct Rec {
+        pub yields: u64,
+    }
+    impl Actor for Rec {
+        type Msg = u64;
+        type State = Log;
+        type Arguments = Log;
+        async fn pre_start(&self, _: ActorRef<u64>, a: Log) -> Result<Log, ActorProcessingErr> {
+            Ok(a)
+        }
+        async fn handle(&self, _: ActorRef<u64>, m: u64, s: &mut Log) -> Result<(), ActorProcessingErr> {
+            for _ in 0..self.yields {
+                tokio::task::yield_now().await;
+            }
+            s.lock().unwrap().push(m);
+            Ok(())
+        }
+    }
+    #[derive(Default)]
+    pub struct RecTl;
+    impl ractor::thread_local::ThreadLocalActor for RecTl {
+        type Msg = u64;
+        type State = (Log, u64);
+        type Arguments = (Log, u64);
+        async fn pre_start(&self, _: ActorRef<u64>, a: (Log, u64)) -> Result<(Log, u64), ActorProcessingErr> {
+            Ok(a)
+        }
+        async fn handle(&self, _: ActorRef<u64>, m: u64, s: &mut (Log, u64)) -> Result<(), ActorProcessingErr> {
+            for _ in 0..s.1 {
+                tokio::task::yield_now().await;
+            }
+            s.0.lock().unwrap().push(m);
+            Ok(())
+        }
+    }
+}
+
+pub fn dequeue(a: &Args) {
+    use ractor::Actor;
+    let threads = a.usize("threads");
+    let msgs = a.usize("msgs");
+    let yields = a.u64("yields");
+    let end = a.str("end").to_string();
+    let tl = a.u64("tl") == 1;
+    let rt = tokio::runtime::Builder::new_multi_thread().worker_threads(2).enable_all().build().unwrap();
+    let log: dq::Log = Default::default();
+    let (actor, handle): (ractor::ActorRef<u64>, ractor::concurrency::JoinHandle<()>) = rt.block_on(async {
+        if tl {
+            use ractor::thread_local::ThreadLocalActor;
+            let spawner = ractor::thread_local::ThreadLocalActorSpawner::new();
+            dq::RecTl::spawn(None, (log.clone(), yields), spawner).await.unwrap()
+        } else {
+            dq::Rec::spawn(None, dq::Rec { yields }, log.clone()).await.unwrap()
+        }
+    });
+    let mut joins = Vec::new();
+    for t in 0..threads {
+        let r = actor.clone();
+        joins.push(std::thread::spawn(move || {
+            let mut out = Vec::new();
+            for j in 0..msgs {
+                let id = (t * 1000 + j + 1) as u64;
+                out.push((id, r.cast(id).is_ok()));
+            }
+            out
+        }));
+    }
+    // the end of the actor races with the senders (once the first messages were handled)
+    if end == "stop" || end == "kill" {
+        let t0 = std::time::Instant::now();
+        while log.lock().unwrap().len() < 2 && t0.elapsed() < std::time::Duration::from_secs(2) {
+            std::thread::yield_now();
+        }
+    }
+    match end.as_str() {
+        "stop" => actor.stop(None),
+        "kill" => actor.kill(),
+        _ => {}
+    }
+    let mut sent: Vec<(u64, bool)> = Vec::new();
+    for j in joins {
+        sent.extend(j.join().unwrap());
+    }
+    if end == "drain" {
+        let _ = actor.drain();
+    }
+    let ended = rt.block_on(async { tokio::time::timeout(std::time::Duration::from_secs(20), handle).await.is_ok() });
+    println!("ended={}", ended as u8);
+    println!("sent_ok={}", sent.iter().filter(|x| x.1).map(|x| x.0.to_string()).collect::<Vec<_>>().join(","));
+    println!("sent_err={}", sent.iter().filter(|x| !x.1).map(|x| x.0.to_string()).collect::<Vec<_>>().join(","));
+    println!("handled={}", log.lock().unwrap().iter().map(|x| x.to_string()).collect::<Vec<_>>().join(","));
+}
